@@ -198,7 +198,8 @@ def gen_simple(rng, lib_paths=(), exports=None):
         names.append("n_items")
     for i in range(rng.between(1, 8)):
         nm = "%s%d" % (rng.choice(["a", "cfg", "port", "name", "item"]), i)
-        k = rng.weighted([("int", 3), ("str", 3), ("tuple", 3), ("list", 1), ("sum", 2 if names else 0), ("field", 2 if tuples else 0), ("func", 1), ("env", 1)])
+        k = rng.weighted([("int", 3), ("str", 3), ("tuple", 3), ("list", 1), ("sum", 2 if names else 0), ("field", 2 if tuples else 0), ("func", 1), ("env", 1),
+                          ("self_copy", 2 if tuples else 0)])
         if rng.chance(20):
             L.append("// %s" % rng.choice(["the port", "docs for the next binding", "ünï"]))
         if k == "int":
@@ -217,6 +218,11 @@ def gen_simple(rng, lib_paths=(), exports=None):
         elif k == "field":
             t = rng.choice(tuples)
             L.append("let %s = %s.%s;" % (nm, t, rng.choice(["host", "port", "nested.deep"])))
+        elif k == "self_copy":
+            # copy of a tuple with a nested override that reads the original through `self`
+            t = rng.choice(tuples)
+            L.append("let %s = %s{nested = self.nested{deep = false}, port = self.port + 1};" % (nm, t))
+            tuples.append(nm)
         elif k == "func":
             L.append("let %s = func (x, y) => x + y;" % nm)
         elif k == "env":
@@ -342,12 +348,14 @@ def sample_position(rng, text, hot=None):
         line, ch = offset_to_position(text, off)
         return "near_mutation", line, ch
     k = rng.weighted([("token_start", 6), ("inside_token", 4), ("line_end", 2), ("past_line_end", 1), ("one_past_last_line", 1),
-                      ("far_outside", 1), ("u32_max", 1), ("origin", 1), ("near_non_ascii", 2), ("first_tokens", 1)])
+                      ("far_outside", 1), ("u32_max", 1), ("origin", 1), ("near_non_ascii", 3), ("first_tokens", 1)])
     if k == "near_non_ascii":
         cands = [i for i, l in enumerate(lines) if any(ord(c) > 127 for c in l)]
         if cands:
             li = rng.choice(cands)
-            idx = rng.choice([n for n, c in enumerate(lines[li]) if ord(c) > 127])
+            cand_idx = [n for n, c in enumerate(lines[li]) if ord(c) > 127]
+            in_string = [n for n in cand_idx if lines[li][:n].count('"') % 2 == 1]
+            idx = rng.choice(in_string) if in_string and rng.chance(75) else rng.choice(cand_idx)
             byte_off = len(lines[li][:idx].encode("utf-8"))
             # around the character's first byte, counted in bytes and in UTF-16 units
             return k, li, rng.choice([byte_off, byte_off + 1, byte_off + 2, byte_off + 3, lsp_client.utf16_len(lines[li][:idx]) + 1])
